@@ -9,7 +9,7 @@ impl ImmutableLeafs {
     /// parallel.rs::ImmutableLeafs::new: the contract PROVED in unit `leafs_new` (lib/contracts/immutable_leafs_new.spec),
     /// restated over the abstract `ids()` of this stand-in
     #[verifier::external_body]
-    pub fn new(rtxn: &Txn, database: Database, index: u16, candidates: &mut RoaringBitmap, memory: usize) -> (r: heed::Result<(ImmutableLeafs, RoaringBitmap)>)
+    pub fn new(rtxn: &Txn, database: Database, index: u16, candidates: &mut RoaringBitmap, memory: usize, min_items: usize) -> (r: heed::Result<(ImmutableLeafs, RoaringBitmap)>)
         requires
             forall|id: u32| old(candidates)@.contains(id) ==> rtxn.view().contains_key(ikey(index, id)),
             leaves_same_len(rtxn.view(), index),
@@ -18,9 +18,9 @@ impl ImmutableLeafs {
                 &&& selected@.union(final(candidates)@) == old(candidates)@
                 &&& selected@.disjoint(final(candidates)@)
                 &&& leafs.ids() == selected@
-                &&& (old(candidates)@.len() > 0 ==> selected@.len() > 0)
-                // the memory budget never stops the selection before 200 items: either everything was taken or at least 200 items were
-                &&& (final(candidates)@ == Set::<u32>::empty() || selected@.len() >= 200)
+                &&& (old(candidates)@.len() > 0 && min_items >= 1 ==> selected@.len() > 0)
+                // the memory budget never stops the selection before `min_items` items
+                &&& (final(candidates)@ == Set::<u32>::empty() || selected@.len() >= min_items)
                 &&& (forall|a: u32, b: u32| selected@.contains(a) && final(candidates)@.contains(b) ==> a < b)
             }),
             r matches Err(e) ==> e is Heed,
